@@ -32,7 +32,7 @@ LEVEL_TEXT = ("Lean theorems over ℝ: for N identical draws (sharp hyper-parame
               "at a perfect match for un-normalised Gaussian types; generated tables: which types report Ddt / σ_v.  Executed "
               "against LensLikelihood.sigma_v_measured_vs_predict / ddt_dd_model_prediction / ddt_measurement and "
               "GoodnessOfFit.reduced_chi2, kin_fit.")
-LEVEL_NOTE = "partial: population moments under scatter are validated statistically only; floats vs ℝ; engines as in C06"
+LEVEL_NOTE = "partial: under scatter the report is proved to be the (linear image of the) moments of the N drawn displacement factors, for every realisation (scatter_ddt_dd_moments, checked exactly on the implementation); that those sample moments approach the population moments is a statistical statement, validated by sampling only; floats vs ℝ; engines as in C06"
 TECHNIQUE = "Lean 4 proof (finite sums, matrix algebra on the C06 model) + correspondence"
 
 TYPES = ["IFUKinCov", "DdtGaussKin", "DdtHistKin", "DdtGaussian", "DdtHist", "DdtHistKDE"]
@@ -164,7 +164,19 @@ def evaluate(case, seed=0):
             if case["stream"] == "sharp":
                 # the same dictionaries again (kin_fit / plot_kin_fit walk over the lenses with ONE set of dictionaries)
                 out["sigma_v_again"] = lens.sigma_v_measured_vs_predict(cosmo, kwargs_lens=h["kwargs_lens"], kwargs_kin=h["kwargs_kin"], kwargs_los=h["kwargs_los"])
-            out["ddt_dd"] = lens.ddt_dd_model_prediction(cosmo, kwargs_lens=h["kwargs_lens"], kwargs_los=h["kwargs_los"])
+            # the displacement factors of the N draws, as handed to the public `displace_prediction` (theorem scatter_ddt_dd_moments)
+            disp = []
+            orig_disp = lens.displace_prediction
+
+            def disp_rec(ddt, dd, gamma_ppn=1, lambda_mst=1, kappa_ext=0, mag_source=0, **kw):
+                disp.append((float(np.squeeze(gamma_ppn)), float(np.squeeze(lambda_mst)), float(np.squeeze(kappa_ext))))
+                return orig_disp(ddt, dd, gamma_ppn=gamma_ppn, lambda_mst=lambda_mst, kappa_ext=kappa_ext, mag_source=mag_source, **kw)
+            lens.displace_prediction = disp_rec
+            try:
+                out["ddt_dd"] = lens.ddt_dd_model_prediction(cosmo, kwargs_lens=h["kwargs_lens"], kwargs_los=h["kwargs_los"])
+            finally:
+                del lens.displace_prediction
+            out["disp"] = disp
             out["ddt_meas"] = lens.ddt_measurement()
             out["dist"] = lens.angular_diameter_distances(cosmo)
     except Exception as e:  # noqa
@@ -246,6 +258,17 @@ def oracle(case, out, lens, cosmo):
             fails.append("model Ddt/Dd (%r, %r) are not the displaced distances (%r, %r)" % (a, b, ddt0 * lam * (1 - kap), dd0 * (1 + gam) / 2))
         if not (abs(sa) <= 1e-9 * abs(a) and abs(sb) <= 1e-9 * abs(b)):
             fails.append("sharp hyper-parameters but model spread (%r, %r)" % (sa, sb))
+    disp = out.get("disp") or []
+    if len(disp) == cfg["num_distribution_draws"] and all(l * (1 - k) >= 1e-4 for _, l, k in disp):
+        # exact, for every realisation (theorem scatter_ddt_dd_moments): the report is Ddt x (mean, spread) of the drawn
+        # displacement factors lambda_k (1 - kappa_k) and Dd x (mean, spread) of (1 + gamma_k) / 2
+        f1 = np.array([l * (1 - k) for _, l, k in disp])
+        f2 = np.array([(1 + g) / 2 for g, _, _ in disp])
+        want = (ddt0 * np.mean(f1), abs(ddt0) * np.std(f1), dd0 * np.mean(f2), abs(dd0) * np.std(f2))
+        scale = (abs(ddt0), abs(ddt0), abs(dd0), abs(dd0))
+        if not all(abs(float(x) - float(w)) <= 1e-9 * max(sc, 1e-300) for x, w, sc in zip((a, sa, b, sb), want, scale)):
+            fails.append("model Ddt/Dd report %r is not Ddt x, Dd x the moments of the %d drawn displacement factors: %r"
+                         % ((a, sa, b, sb), len(disp), want))
     if not sharp:
         # population moments of Ddt under lambda / kappa scatter (statistical, 5 sigma)
         n = cfg["num_distribution_draws"]
